@@ -1,6 +1,6 @@
 (* CFiringScript.get_firings / set_firings / update_firings translated from /repo's current source (TranslatedImpCFiringScript.v, regenerated on every
    run by tools/translate_imp.py) refine the script machine sstep of Model/Machines.v. The Python script is a sparse dictionary (absent = 0). *)
-From Coq Require Import ZArith List Lia Bool Arith.
+From Coq Require Import ZArith List Lia Bool Arith Permutation.
 Import ListNotations.
 From CF Require Import ZSum ListAux Defs Core Machines GraphLink MachinesLink PyDict ImpRep TranslatedImpCFiringScript TranslatedImpCFDivisor ImpLinkArith.
 Open Scope Z_scope.
@@ -63,3 +63,25 @@ Proof. intros Hv Hnd. rewrite script_ctor_unfold. destruct sc as [d|].
       unfold d_get. rewrite store_all_find by (apply (Hnd d eq_refl)). destruct (d_find v d); reflexivity.
     + unfold dictZ in *. destruct (sinit_loop_bad n vs Hv d [] Ef) as [e He]. rewrite He. reflexivity.
   - split; [reflexivity|]. split; [apply tab_length|]. intros v Hvn. rewrite nthZ_tab by exact Hvn. reflexivity. Qed.
+
+(* ---- the property `script`, translated from the current source: a fresh dictionary with one entry per vertex of the graph (whatever order the set is iterated in), holding
+   get_firings of that vertex - the dense form of the sparse script ---- *)
+Definition sp_body (vs : list nat) (sd : list (nat * Z)) (acc_ : pyres unit (list (nat * Z))) (vertex : nat) : pyres unit (list (nat * Z)) :=
+  match acc_ with PyExn e_ => PyExn e_ | PyOk to_return =>
+  match CFiringScript_get_firings vs sd vertex with PyExn _ => PyExn tt | PyOk t1_ => let to_return := d_set vertex t1_ to_return in PyOk to_return end end.
+Lemma sp_loop n vs sd s : rep_vset n vs -> rep_script n sd s -> forall L, (forall v, In v L -> (v < n)%nat) -> forall r0,
+  fold_left (sp_body vs sd) L (PyOk r0) = PyOk (store_all (map (fun v => (v, nthZ s v)) L) r0).
+Proof. intros Hv Hs. induction L as [|x L IH]; intros HL r0; [reflexivity|]. cbn [fold_left map]. unfold sp_body at 2. rewrite (get_firings_refines n vs sd s x Hv Hs).
+  assert (E : Nat.ltb x n = true) by (apply Nat.ltb_lt, HL; now left). rewrite E. cbn zeta. rewrite IH by (intros v Hx; apply HL; now right). reflexivity. Qed.
+Theorem script_property_refines n vs sd s so : rep_vset n vs -> NoDup vs -> rep_script n sd s -> (forall l, Permutation (so l) l) ->
+  exists dd, CFiringScript_script vs sd so = PyOk dd /\ rep_div n dd s.
+Proof. intros Hv Hnd Hs Hso. unfold CFiringScript_script. cbv zeta.
+  change (fold_left _ (so vs) (PyOk [])) with (fold_left (sp_body vs sd) (so vs) (PyOk [])). unfold dictZ in *.
+  assert (Hin : forall v, In v (so vs) -> (v < n)%nat).
+  { intros v H. apply (Permutation_in _ (Hso vs)) in H. apply s_mem_In in H. rewrite (Hv v) in H. apply Nat.ltb_lt. exact H. }
+  rewrite (sp_loop n vs sd s Hv Hs (so vs) Hin []). eexists. split; [reflexivity|].
+  assert (Hsn : NoDup (so vs)) by (apply (Permutation_NoDup (Permutation_sym (Hso vs))); exact Hnd).
+  assert (Hk : map fst (map (fun v => (v, nthZ s v)) (so vs)) = so vs) by (rewrite map_map; cbn [fst]; apply map_id).
+  destruct Hs as [HL _]. split; [exact HL|]. split; [apply store_all_nodup; constructor|].
+  intros v. rewrite store_all_find by (rewrite Hk; exact Hsn). rewrite (d_find_graph_of (nthZ s) v (so vs)), (s_mem_perm v _ _ (Hso vs)), (Hv v).
+  destruct (Nat.ltb v n); reflexivity. Qed.
